@@ -1,0 +1,25 @@
+//go:build verif
+
+package functions
+
+// Contracts of the b6vc verifier (/verif).
+
+// ---- C24 / C23: take -----------------------------------------------------------------
+// take(c, n) yields at most max(n, 0) items and reports a count that its iterator
+// honours: a reported count is never negative, Next consumes one unit of the
+// remaining budget per item and stops at zero, Begin starts with the full budget.
+
+//@ func (*takeCollection).Count
+//@   requires t.c != nil
+//@   ensures implies(result1, result0 >= 0 && result0 <= ite(t.n > 0, t.n, 0))
+
+//@ func (*takeCollection).Next
+//@   requires t.i != nil
+//@   ensures implies(old(t.r) <= 0, !result0 && result1 == nil && t.r == old(t.r))
+//@   ensures implies(old(t.r) > 0, t.r == old(t.r) - 1)
+
+// ---- C23: top never dereferences a nil heap (empty collection) ------------------------
+//@ func top
+//@   requires collection != nil
+//@   loop 1 invariant first || h != nil
+//@   loop 2 invariant h != nil
